@@ -169,11 +169,80 @@ def run(ctx):
             out.nontrivial.add(repr(where))
         if len(out.samples) < 3 and len(want) >= 2:
             out.sample(dict(where, groups=groups))
+    two_pass_cases(ctx, out)
     return out
+
+
+def eval_two_pass(recs, recs2, contigs, by_barcodes, rel):
+    """The same MafRecord OBJECTS iterated twice: built with the alleles of `recs`, iterated to the end, their allele
+    columns then changed in place (column.value = ...) to the alleles of `recs2` (same records otherwise), iterated again.
+    The second pass must give the documented result for the alleles the records hold then."""
+    from maflib.overlap_iter import AlleleOverlapType, LocatableByAlleleOverlapIterator
+    inputs1, inputs2 = inputs_of(recs), inputs_of(recs2)
+    ro = c11.RecordOf(inputs1, allele_columns=True)
+    stored = {"recs": recs, "recs2": recs2, "relation": rel, "by_barcodes": by_barcodes, "contigs": contigs, "kind": "two-pass"}
+
+    def one_pass():
+        it = LocatableByAlleleOverlapIterator([iter(x) for x in ro.inputs], contigs=contigs, by_barcodes=by_barcodes, overlap_type=AlleleOverlapType[rel])
+        out = []
+        for g in it:
+            out.append([ro.ids(slot) for slot in g])
+            if len(out) > 300:
+                break
+        return out
+    try:
+        first = one_pass()
+        for row, inp2 in zip(ro.inputs, inputs2):
+            for r, x in zip(row, inp2):
+                r["Reference_Allele"].value = x.ref
+                r["Tumor_Seq_Allele2"].value = x.alts[0]
+        second = one_pass()
+    except Exception as e:  # noqa
+        return {"first": None, "second": None, "failures": [dict(stored, what="two passes over the same records failed with %s" % exc_name(e))]}
+    pos, pexc = c11.run_impl(inputs2, contigs, by_barcodes)
+    fails = []
+    if not pexc:
+        want = expected(pos, rel, {x.rid: x for inp in inputs2 for x in inp})
+        if second != want:
+            fails.append(dict(stored, what="second pass over the same record objects, after their allele columns were changed in place, differs from the documented result for the alleles they hold now",
+                              expected=want, got=second))
+    return {"first": first, "second": second, "failures": fails}
+
+
+def two_pass_cases(ctx, out):
+    rng = ctx.rng("c12", "two-pass")
+    single = [a for a in ALTS if len(a) == 1]
+    for _ in range(ctx.scale(150, 1500)):
+        n_inputs, contigs, by_barcodes, items = c11.gen_config(rng, 6)
+        seeds = [rng.randrange(10**9), rng.randrange(10**9)]
+
+        def alleles_for(seed):
+            def alleles(rid):
+                import random
+                r = random.Random(seed * 1000 + rid)
+                return r.choice(["A", "A", "AT"]), tuple(r.choice(single))
+            return alleles
+        i1 = c11.build_inputs(n_inputs, contigs, by_barcodes, items, alleles=alleles_for(seeds[0]))
+        i2 = c11.build_inputs(n_inputs, contigs, by_barcodes, items, alleles=alleles_for(seeds[1]))
+        rel = rng.choice(RELS)
+        out.evaluations += 1
+        e = eval_two_pass(recs_of(i1), recs_of(i2), contigs, by_barcodes, rel)
+        out.failures += e["failures"]
+        out.distribution["two-pass (alleles edited in place between passes)"] += 1
+        if e["second"] and any(len(g[0]) > 1 or any(g[1:]) for g in e["second"]):
+            out.nontrivial.add(("two-pass", repr(recs_of(i2)), rel))
 
 
 def replay_case(ctx, failure):
     """Re-evaluate the stored inputs on the current implementation; the failures they produce now ([] = property holds)."""
+    if failure.get("kind") == "two-pass" and "recs2" in failure:
+        e = eval_two_pass(failure["recs"], failure["recs2"], failure.get("contigs"), failure["by_barcodes"], failure["relation"])
+        print("replay C12: the same MafRecord objects iterated twice (overlap_type=%s, by_barcodes=%s, contigs=%s); alleles changed in place between the passes" % (
+            failure["relation"], failure["by_barcodes"], failure.get("contigs")))
+        print("  first pass: %s\n  second pass: %s" % (e["first"], e["second"]))
+        for f in e["failures"]:
+            print("  oracle: %s (expected %s)" % (f["what"], f.get("expected")))
+        return e["failures"]
     if "recs" not in failure or "relation" not in failure or "by_barcodes" not in failure:
         return None
     inputs = inputs_of(failure["recs"])
